@@ -151,6 +151,18 @@ func Normalise(opt LoadOptions, testIdents map[string]bool, loadFn func(map[stri
 			changed = true
 			continue
 		}
+		if cedits, cmsgs := closureRound(pkgs, overlay); len(cedits) > 0 {
+			log = append(log, cmsgs...)
+			prev = map[string][]byte{}
+			for k, v := range overlay {
+				prev[k] = v
+			}
+			for path, content := range cedits {
+				overlay[path] = content
+			}
+			changed = true
+			continue
+		}
 		edits, msgs, bad := inlineRound(pkgs, overlay, testIdents, &counter)
 		log = append(log, msgs...)
 		if bad {
@@ -916,6 +928,15 @@ func hasNewFunctions(repo string, overlay map[string][]byte) (bool, map[string]b
 				})
 				continue
 			}
+			ast.Inspect(f, func(n ast.Node) bool {
+				// a local closure without results that could be called as a statement
+				if as, ok := n.(*ast.AssignStmt); ok && as.Tok == token.DEFINE && len(as.Rhs) == 1 {
+					if lit, ok := as.Rhs[0].(*ast.FuncLit); ok && (lit.Type.Results == nil || len(lit.Type.Results.List) == 0) {
+						found = true
+					}
+				}
+				return true
+			})
 			for _, d := range f.Decls {
 				// what is present, by inventory key (to notice names that disappeared: renames)
 				switch x := d.(type) {
